@@ -140,6 +140,19 @@ def step (line : String) : String :=
       | .err .other => "err"
       | .panic s => "panic " ++ s
     | _, _, _ => "bad-op"
+  -- dect TARGET FIN HEX: Decode into an arbitrary target kind (nil | nonptr | nilptr | ptrnonstruct | <struct type>)
+  | ["dect", tgt, fin, hex] =>
+    let t : Option Target := match tgt with
+      | "nil" => some .nil | "nonptr" => some .nonPointer | "nilptr" => some .nilPointer | "ptrnonstruct" => some .ptrNonStruct
+      | n => (findSD n).map .ptrStruct
+    match t, fromHex hex, (if fin = "eof" then some Fin.eof else if fin = "ioerr" then some Fin.ioerr else none) with
+    | some t, some bs, some f =>
+      match decodeTop t bs f with
+      | .ok (v, n, _) => s!"ok {n} " ++ showVal v
+      | .err .eof => "eof"
+      | .err .other => "err"
+      | .panic s => "panic " ++ s
+    | _, _, _ => "bad-op"
   -- spec TYPE HEX: the independent reader/schema matcher
   | ["spec", ty, hex] =>
     match findSD ty, fromHex hex with
